@@ -931,6 +931,24 @@ func (e *e4Engine) edge(fn *ssa.Function, pred, succ *ssa.BasicBlock, s *pstate,
 			}
 		}
 	}
+	// a byte that is the one on deck at entry stays that byte through a phi on the edge taken
+	symUpd := map[ssa.Value]bool{}
+	for _, in := range succ.Instrs {
+		phi, ok := in.(*ssa.Phi)
+		if !ok {
+			break
+		}
+		if bt, ok := phi.Type().Underlying().(*types.Basic); ok && bt.Kind() == types.Uint8 {
+			symUpd[phi] = s.symVals[phi.Edges[pi]]
+		}
+	}
+	for k, v := range symUpd {
+		if v {
+			s.symVals[k] = true
+		} else {
+			delete(s.symVals, k)
+		}
+	}
 	for k, v := range upd {
 		s.vals[k] = v
 	}
